@@ -819,9 +819,11 @@ int main(int argc, char** argv)
          }
          else if(op == "STATE")
          {
-            // STATE tag names(0/1) cpx(0/1) readnames(0/1): writeStateReal(prefix, ..., cpx, writeZeroObjective = true), then a new
+            // STATE tag names(0/1) cpx(0/1) readnames(0/1) [settingsfirst(0/1)]: writeStateReal(prefix, ..., cpx, writeZeroObjective = true), then a new
             // object: readFile + readBasisFile + loadSettingsFile; everything observable of both objects is printed
             bool names = t[2] == "1", cpx = t[3] == "1", rnames = t[4] == "1";
+            // order of loading: 0 = LP, basis, settings; 1 = settings, LP, basis (the order of the soplex binary)
+            bool setFirst = t.size() > 5 && t[5] == "1";
             std::string pre = base + "-st";
             SP& s = *c.s;
             s.writeStateReal(pre.c_str(), names ? &c.rn : nullptr, names ? &c.cn : nullptr, cpx, true);
@@ -830,9 +832,16 @@ int main(int argc, char** argv)
             SP b;
             quiet(b);
             NameSet rn2, cn2;
+            bool okS = false;
+
+            if(setFirst)
+               okS = b.loadSettingsFile((pre + ".set").c_str());
+
             bool okLP = b.readFile(lpf.c_str(), &rn2, &cn2);
             bool okB = okLP && b.readBasisFile((pre + ".bas").c_str(), rnames ? &rn2 : nullptr, rnames ? &cn2 : nullptr);
-            bool okS = b.loadSettingsFile((pre + ".set").c_str());
+
+            if(!setFirst)
+               okS = b.loadSettingsFile((pre + ".set").c_str());
             printf("STATE %s okLP=%d okBas=%d okSet=%d\n", t[1].c_str(), okLP ? 1 : 0, okB ? 1 : 0, okS ? 1 : 0);
             dump(s, "STATE-A", t[1], true);
             dump(b, "STATE-B", t[1], true);
